@@ -7,6 +7,7 @@ import (
 	"io"
 	"net"
 	"reflect"
+	"strings"
 	"time"
 	"unsafe"
 
@@ -355,6 +356,23 @@ func c05Exec(c *fw.Ctx, cas c05Case) {
 	}); pn != nil {
 		c.Report("panic/"+kinds, fmt.Sprintf("Decrypt panics on an altered stream: %v", pn), cas)
 		return
+	}
+	if derr != nil && strings.Contains(kinds, "forged-then-well-known-key") {
+		// a caller that goes on calling Decrypt after the error (the session object stays in its hands): whatever it gets,
+		// it is nothing the adversary wrote
+		var late []byte
+		guard(func() {
+			for n := 0; n < 8 && rd.Len() > 0; n++ {
+				if r, e := s.recv.Decrypt(src); e == nil {
+					b, _ := io.ReadAll(r)
+					late = append(late, b...)
+				}
+			}
+		})
+		if bytes.Contains(late, []byte("forged after the rejected frame")) || bytes.Contains(late, []byte("and one more")) {
+			c.Report("forged-plaintext-released-after-error/"+kinds, fmt.Sprintf("after Decrypt had rejected the altered frame, later calls released %d bytes the adversary sealed under a key everybody knows: %q…", len(late), trunc(late, 40)), cas)
+			return
+		}
 	}
 	// released must be the concatenation of the plaintexts of frames 0..k-1 with k ≤ j (or any k when j = -1)
 	k, acc := 0, 0
